@@ -172,11 +172,11 @@ Qed.
 From Verif Require Import X86Validate.ValidateModel X86Validate.ValidateProofs.
 From VerifGen Require Import X86Sigs.
 
-Lemma xlat_mem_index : forall T x64 avx size bt bid it iid off seg bcst home x c,
-  xlat_operand T x64 false avx (OMem size bt bid it iid off seg bcst home) = XOk x c ->
+Lemma xlat_mem_index : forall T x64 iflags avx size bt bid it iid off seg bcst home x c,
+  xlat_operand T x64 false iflags avx (OMem size bt bid it iid off seg bcst home) = XOk x c ->
   it = 0%N \/ N.testbit (vd_index_regs (if x64 then vt_vd64 T else vt_vd86 T)) it = true.
 Proof.
-  intros T x64 avx size bt bid it iid off seg bcst home x c H.
+  intros T x64 iflags avx size bt bid it iid off seg bcst home x c H.
   destruct (N.eqb it 0) eqn:E0; [left; apply N.eqb_eq; exact E0 |].
   destruct (N.testbit (vd_index_regs (if x64 then vt_vd64 T else vt_vd86 T)) it) eqn:ET; [right; reflexivity |].
   exfalso. cbn [xlat_operand] in H. rewrite E0, ET in H. cbn [negb] in H.
@@ -187,25 +187,9 @@ Proof.
   end; try discriminate H.
 Qed.
 
-Lemma high_vec_scan_some : forall T x64 avx evex ops x, high_vec_scan T x64 avx evex ops = Some x -> x = E_InvalidPhysId.
-Proof.
-  induction ops as [| o r IH]; intros x H; cbn [high_vec_scan] in H; [discriminate |].
-  destruct o; try discriminate H;
-    destruct (xlat_operand T x64 false avx _); try discriminate H; try (apply IH; exact H).
-  match type of H with (if ?c then _ else _) = _ => destruct c end; [inversion H; reflexivity | apply IH; exact H].
-Qed.
-
-(* the HEAD adapter only ever ADDS a refusal: what it lets through, C13's validator lets through *)
+(* the HEAD adapter is the identity since C13's model contains the 4824306 rule *)
 Lemma validate_head_ok : forall T zq x64 inst ops, validate_head T zq x64 inst ops = E_Ok -> validate T zq x64 false inst ops = E_Ok.
-Proof.
-  intros T zq x64 inst ops H. unfold validate_head in H.
-  destruct (vt_count T <=? vi_id inst)%N; [exact H |].
-  destruct (nth (N.to_nat (vi_id inst)) (vt_inst T) (0, 0, 0, 0)%N) as [[[iflags avx] sidx] scnt].
-  destruct (negb (lock_stage (vi_options inst) iflags (first_is_mem ops) =? E_Ok)%N); [exact H |].
-  destruct (negb (rep_stage (vi_options inst) iflags =? E_Ok)%N); [exact H |].
-  destruct (high_vec_scan T x64 avx (test iflags IF_Evex) ops) as [x |] eqn:S; [| exact H].
-  apply high_vec_scan_some in S. subst x. discriminate H.
-Qed.
+Proof. intros T zq x64 inst ops H. exact H. Qed.
 
 Lemma validated_index_allowed : forall x64 inst_id v,
   0 <= m_itype (v_mem v) -> validate_vgather x64 inst_id v = 0 -> index_type_allowed (m_itype (v_mem v)).
@@ -221,8 +205,8 @@ Proof.
   { apply validate_head_ok. apply N2Z.inj. exact H. }
   apply validate_ok_inv in V. destruct V as [_ [iflags [avx [sidx [scnt [st [rest [_ [XL _]]]]]]]]].
   cbn [xlat_all] in XL.
-  destruct (xlat_operand x86_vtables x64 false avx (OReg _ _)) as [e0 | x0 c0]; [discriminate XL |].
-  destruct (xlat_operand x86_vtables x64 false avx (OMem _ _ _ _ _ _ _ _ _)) as [e1 | x1 c1] eqn:XM; [discriminate XL |].
+  destruct (xlat_operand x86_vtables x64 false iflags avx (OReg _ _)) as [e0 | x0 c0]; [discriminate XL |].
+  destruct (xlat_operand x86_vtables x64 false iflags avx (OMem _ _ _ _ _ _ _ _ _)) as [e1 | x1 c1] eqn:XM; [discriminate XL |].
   apply xlat_mem_index in XM. unfold index_type_allowed.
   destruct XM as [Z0 | TB].
   - left. apply (f_equal Z.of_N) in Z0. rewrite Z2N.id in Z0 by exact Hi. exact Z0.
@@ -489,8 +473,8 @@ Proof.
   { apply validate_head_ok. apply N2Z.inj. exact H. }
   apply validate_ok_inv in V. destruct V as [_ [iflags [avx [sidx [scnt [st [rest [_ [XL _]]]]]]]]].
   cbn [xlat_all] in XL.
-  destruct (xlat_operand x86_vtables x64 false avx (OReg _ _)) as [e0 | x0 c0]; [discriminate XL |].
-  destruct (xlat_operand x86_vtables x64 false avx (OMem _ _ _ _ _ _ _ _ _)) as [e1 | x1 c1] eqn:XM; [discriminate XL |].
+  destruct (xlat_operand x86_vtables x64 false iflags avx (OReg _ _)) as [e0 | x0 c0]; [discriminate XL |].
+  destruct (xlat_operand x86_vtables x64 false iflags avx (OMem _ _ _ _ _ _ _ _ _)) as [e1 | x1 c1] eqn:XM; [discriminate XL |].
   apply xlat_mem_index in XM. unfold index_type_allowed.
   destruct XM as [Z0 | TB].
   - left. apply (f_equal Z.of_N) in Z0. rewrite Z2N.id in Z0 by exact Hi. exact Z0.
